@@ -180,4 +180,82 @@ theorem dictGet_insert_other {α : Type} (a b : List (Name × α)) (e : Name × 
   have hne : (e.1 == k) = false := by simp [h]
   simp [dictGet, List.find?_append, List.find?_cons, hne]
 
+/-- provider `p` cannot pick the source field `e`: its source predicate
+    rejects it / no keyword-only parameter of the linked function is named so -/
+def Provider.ignoresField (req : LinkReq) (e : OutField) : Provider → Prop
+  | .link src _ _ => src (e.loc :: req.srcStack) = false
+  | .linkFunction f _ => ∀ fp ∈ f.params, fp.kind = .kwOnly → fp.name ≠ e.id
+  | _ => True
+
+/-- the request with one more source field inserted -/
+def LinkReq.withExtra (req : LinkReq) (a b : List OutField) (e : OutField) : LinkReq :=
+  { req with sources := a ++ e :: b }
+
+theorem stack_withExtra (req : LinkReq) (a b : List OutField) (e : OutField) (s : Source) :
+    s.stack (req.withExtra a b e) = s.stack req := by
+  cases s <;> rfl
+
+theorem funcArgLink_withExtra (req : LinkReq) (a b : List OutField) (e : OutField) (hsrc : req.sources = a ++ b)
+    (p : FuncParam) (idx : Nat) (hp : p.kind = .kwOnly → p.name ≠ e.id) :
+    funcArgLink (req.withExtra a b e) p idx = funcArgLink req p idx := by
+  simp only [funcArgLink, LinkReq.withExtra, hsrc]
+  split
+  · rename_i hk
+    have hne : e.id ≠ p.name := fun h => hp (by simpa using hk) h.symm
+    rw [List.map_append, List.map_cons, List.map_append]
+    rw [dictGet_insert_other _ _ (e.id, Source.field e) p.name hne]
+  · rfl
+
+theorem funcParamSpecs_withExtra (req : LinkReq) (a b : List OutField) (e : OutField) (hsrc : req.sources = a ++ b) :
+    ∀ (ps : List FuncParam) (idx : Nat), (∀ fp ∈ ps, fp.kind = .kwOnly → fp.name ≠ e.id) →
+      funcParamSpecs (req.withExtra a b e) ps idx = funcParamSpecs req ps idx
+  | [], _, _ => by simp [funcParamSpecs]
+  | p :: ps, idx, h => by
+    have h1 := funcArgLink_withExtra req a b e hsrc p idx (h p (by simp))
+    have ih := funcParamSpecs_withExtra req a b e hsrc ps (idx + 1) (fun fp hfp => h fp (by simp [hfp]))
+    simp only [funcParamSpecs, h1, ih]
+
+theorem provideLinking_withExtra (req : LinkReq) (a b : List OutField) (e : OutField) (hsrc : req.sources = a ++ b)
+    (p : Provider) (hp : p.ignoresField req e) :
+    p.provideLinking (req.withExtra a b e) = p.provideLinking req := by
+  cases p with
+  | link src dst co =>
+    simp only [Provider.ignoresField] at hp
+    have hdst : (req.withExtra a b e).dst = req.dst := rfl
+    have hfun : (fun s : Source => src (s.stack (req.withExtra a b e))) = (fun s => src (s.stack req)) :=
+      funext (fun s => by rw [stack_withExtra])
+    have hfind : (matchingCandidates (req.withExtra a b e)).find? (fun s => src (s.stack req)) =
+        (matchingCandidates req).find? (fun s => src (s.stack req)) := by
+      have he : src ((Source.field e).stack req) = false := hp
+      simp only [matchingCandidates, LinkReq.withExtra, hsrc, fieldSources, List.map_append, List.map_cons,
+        List.find?_append, List.find?_cons, he]
+    simp only [Provider.provideLinking, hdst, hfun, hfind]
+  | linkConstant dst c => rfl
+  | linkFunction f dst =>
+    simp only [Provider.ignoresField] at hp
+    have hdst : (req.withExtra a b e).dst = req.dst := rfl
+    simp only [Provider.provideLinking, hdst, funcParamSpecs_withExtra req a b e hsrc f.params 0 hp]
+  | policy pr al => rfl
+  | coercer x y f => rfl
+
+theorem defaultLinking_withExtra (req : LinkReq) (a b : List OutField) (e : OutField) (hsrc : req.sources = a ++ b)
+    (hname : e.id ≠ req.targetId) :
+    defaultLinking (req.withExtra a b e) = defaultLinking req := by
+  have hne : ((Source.field e).fieldId == req.targetId) = false := by simp [Source.fieldId, hname]
+  have htarget : (req.withExtra a b e).targetId = req.targetId := rfl
+  simp only [defaultLinking, defaultCandidates, htarget]
+  simp only [LinkReq.withExtra, hsrc, fieldSources, List.map_append, List.map_cons, List.find?_append,
+    List.find?_cons, hne]
+  rfl
+
+theorem linkOf_withExtra (req : LinkReq) (a b : List OutField) (e : OutField) (hsrc : req.sources = a ++ b)
+    (hname : e.id ≠ req.targetId) :
+    ∀ (recipe : List Provider), (∀ p ∈ recipe, p.ignoresField req e) →
+      linkOf recipe (req.withExtra a b e) = linkOf recipe req
+  | [], _ => by simp [linkOf, defaultLinking_withExtra req a b e hsrc hname]
+  | p :: rest, h => by
+    have hp := provideLinking_withExtra req a b e hsrc p (h p (by simp))
+    have ih := linkOf_withExtra req a b e hsrc hname rest (fun q hq => h q (by simp [hq]))
+    simp only [linkOf, hp, ih]
+
 end Adaptix.Conv13
